@@ -117,7 +117,9 @@ def plan_payloads(ctx, q):
 def run_C02(ctx):
     agg = new_agg()
     q = ctx.quick
-    for tag, kw in plan_payloads(ctx, q):
+    # every Retry class next to data, ID and type: invisible in the event, and no obstacle to go-sse's own decoder
+    plan = plan_payloads(ctx, q) + [("retries", dict(data=[X, []], ids=[X], types=[X], retries=["neg", "zero", "subms", "ms1", "ms999", "s1", "max"], max_ops=3, max_appends=1))]
+    for tag, kw in plan:
         r = tlc_message(ctx, "Msg_" + tag, **kw)
         drive_message(ctx, r.stdout_path, tag, agg, every=1 if tag in ("families", "appends") else 3, faults=False)
     evidence(ctx, agg,
